@@ -2,6 +2,9 @@
 package main
 
 import (
+	"net"
+	"syscall"
+	iscperrors "github.com/aptpod/iscp-go/errors"
 	"context"
 	"errors"
 	"fmt"
@@ -29,6 +32,7 @@ type params struct {
 	ResumeScope bool // schedule deviations in the stream supervisors' resume step (a second outage falls into it)
 	OpenScope bool // schedule deviations in the open calls themselves (between the open response and the subscriptions)
 	Zero     bool // the broker numbers stream aliases from 0
+	WriteErr string // (with During) what a write on the dead link fails with: "" (the library's connection-closed error) | goingaway | raw
 	During   bool // the link is cut first (redial takes 3 s) and the InFlight call is issued during the outage
 	Conflict bool // broker answers the first resume attempt of every stream with RESUME_REQUEST_CONFLICT, the next with success
 	Lemma    string
@@ -40,6 +44,9 @@ func (p params) name() string {
 	}
 	if p.Conflict {
 		return fmt.Sprintf("%s/%s/F%d/P%d/conflict", p.Streams, p.InFlight, p.F, p.P)
+	}
+	if p.During && p.WriteErr != "" {
+		return fmt.Sprintf("%s/%s/F%d/P%d/during-outage/write-error-%s", p.Streams, p.InFlight, p.F, p.P, p.WriteErr)
 	}
 	if p.During {
 		return fmt.Sprintf("%s/%s/F%d/P%d/during-outage", p.Streams, p.InFlight, p.F, p.P)
@@ -99,6 +106,13 @@ func scenarios(tier string) []vlib.Scenario {
 		add(params{Kind: "e", Streams: "up+down", InFlight: f, F: 0, During: true})
 	}
 	add(params{Kind: "e", Streams: "up+down", InFlight: "meta", F: 1, During: true})
+	// the write on the dead link fails with a close-status error or a raw socket error (as the WebSocket back-ends do),
+	// not with the library's connection-closed error
+	for _, f := range []string{"openup", "opendown", "meta", "call"} {
+		for _, k := range []string{"goingaway", "raw"} {
+			add(params{Kind: "e", Streams: "up+down", InFlight: f, F: 0, During: true, WriteErr: k})
+		}
+	}
 	// a metadata item is already queued in the downstream when the link dies; it is read during the outage
 	add(params{Kind: "e", Streams: "down", InFlight: "readmeta", F: 0, During: true})
 	add(params{Kind: "e", Streams: "up+down", InFlight: "readmeta", F: 0, P: 1, During: true})
@@ -355,6 +369,12 @@ func (w *world) main() {
 		}
 		if w.p.During {
 			if c := w.B.Live(); c != nil {
+				switch w.p.WriteErr {
+				case "goingaway":
+					c.Link.WriteResetErr = fmt.Errorf("get writer: %w", iscperrors.ErrConnectionGoingAwayClose)
+				case "raw":
+					c.Link.WriteResetErr = &net.OpError{Op: "write", Net: "tcp", Err: syscall.EPIPE}
+				}
 				w.cuts++
 				w.estCuts++
 				w.B.Cut(c)
